@@ -37,6 +37,9 @@ class ModelGC:
 
 
 def warmup():
+    from . import engine_threads
+
+    engine_threads.warmup()
     import claripy  # noqa: F401
     import claripy.backends.backend_z3  # noqa: F401
 
@@ -64,6 +67,17 @@ def gen_program(r: Rng, depth, budget):
 
 
 def generate(prop, seed, idx, opts):
+    if opts.get("granularity") == "fullstack":
+        # the guard inside the real stack: the C20 workload (threads running solver histories under the baton
+        # scheduler) with the real gc switch observed at every Z3 check and at quiescence
+        from . import engine_threads
+
+        rec = engine_threads.generate(prop, seed, idx, opts)
+        r = Rng(derive(seed, prop, idx, "gcguard-fullstack"))
+        rec["engine"] = name
+        rec["kind"] = "fullstack"
+        rec["config"]["gc_initially_enabled"] = r.chance(65)
+        return rec
     r = Rng(derive(seed, prop, idx, "gcguard"))
     nact = r.weighted([(1, 1), (2, 5), (3, 4)])
     progs = []
@@ -80,6 +94,10 @@ def generate(prop, seed, idx, opts):
 
 # ------------------------------------------------------------------ execution
 def execute(rec):
+    if rec.get("kind") == "fullstack":
+        from . import engine_threads
+
+        return engine_threads.execute(rec, gc_monitor=True)
     import z3
 
     import claripy.backends.backend_z3 as bz
@@ -210,6 +228,10 @@ def signature(res):
     v = res.get("violation")
     if not v:
         return None
+    if v["detail"].get("cls") != "backend_z3":  # full-stack phase: a solver-level failure (C20 territory) keeps its class
+        from . import engine_threads
+
+        return engine_threads.signature(res)
     return [v["clause"], "backend_z3", "schedule", None, None]
 
 
@@ -217,6 +239,12 @@ def shrink_ops(rec):
     """simpler candidates: fewer actors, fewer / shallower items; each tried with the original schedule seed and two more
     (removing an item shifts every later scheduling point)"""
     import copy
+
+    if rec.get("kind") == "fullstack":
+        from . import engine_threads
+
+        yield from engine_threads.shrink_ops(rec)
+        return
 
     def variants(r, tag):
         yield tag, r
